@@ -38,7 +38,7 @@ def run_case(kind, name, diff, expect, run_tests=True):
             r = sh('cargo test --workspace --offline 2>&1 | grep -E "^test result|error(\\[|:)|FAILED|panicked" | head -20', cwd=d, env=env)
             if 'error' in r.stdout or 'FAILED' in r.stdout or r.stdout.count('test result: ok') < 3:
                 return 'DOES-NOT-PASS-TESTS', r.stdout[-600:]
-        env = dict(os.environ, HMSA_REPO=d)
+        env = dict(os.environ, HMSA_REPO=d, HMSA_EVIDENCE=os.path.join(d, 'evidence'))
         fired = {}
         checks = ALL
         for pid in checks:
@@ -56,8 +56,9 @@ def run_case(kind, name, diff, expect, run_tests=True):
 
 def main():
     which = sys.argv[1] if len(sys.argv) > 1 else 'all'
-    flt = [a for a in sys.argv[2:] if not a.startswith('--')]
+    flt = [a for a in sys.argv[2:] if not a.startswith('-')]
     run_tests = '--no-tests' not in sys.argv
+    jobs = int([a[2:] for a in sys.argv if a.startswith('-j')][0]) if any(a.startswith('-j') for a in sys.argv) else 1
     bad = 0
     for kind in ('benign', 'mutants'):
         if which not in (kind, 'all'):
@@ -66,15 +67,19 @@ def main():
         ip = os.path.join(HERE, kind, 'index.json')
         if os.path.exists(ip):
             idx = json.load(open(ip))
-        for n in sorted(os.listdir(os.path.join(HERE, kind))):
-            if not n.endswith('.diff') or (flt and not any(f in n for f in flt)):
-                continue
+        names = [n for n in sorted(os.listdir(os.path.join(HERE, kind))) if n.endswith('.diff') and not (flt and not any(f in n for f in flt))]
+
+        def one(n, kind=kind, idx=idx):
             t0 = time.time()
             status, info = run_case(kind, n, os.path.join(HERE, kind, n), idx.get(n, {}).get('expect', []), run_tests)
-            print('%-8s %-44s %-12s %5.1fs %s' % (kind, n, status, time.time() - t0, json.dumps(info)[:700] if status != 'OK' or kind == 'mutants' else ''))
-            sys.stdout.flush()
-            if status != 'OK':
-                bad += 1
+            return n, status, info, time.time() - t0
+        from concurrent.futures import ThreadPoolExecutor
+        with ThreadPoolExecutor(max_workers=jobs) as ex:
+            for n, status, info, dt in ex.map(one, names):
+                print('%-8s %-44s %-12s %5.1fs %s' % (kind, n, status, dt, json.dumps(info)[:700] if status != 'OK' or kind == 'mutants' else ''))
+                sys.stdout.flush()
+                if status != 'OK':
+                    bad += 1
     print('selftest: %d problem(s)' % bad)
     return 1 if bad else 0
 
